@@ -84,3 +84,7 @@ func codecLaws(c plenccodec.Codec, ptr unsafe.Pointer, isMap bool, stable bool) 
 		vrt.Assert("Read consumes exactly the body", n == len(body))
 	}
 }
+
+type unsafePointer = unsafe.Pointer
+
+func unsafePtr[T any](p *T) unsafe.Pointer { return unsafe.Pointer(p) }
